@@ -20,6 +20,11 @@ AssocClauses(a) ==
           ~(\E j \in 1..Len(a.negotiated) : a.negotiated[j].ctx = a.requests[i].ctx /\ a.negotiated[j].ts = a.requests[i].servedTs),
        "served-with-the-parameters-this-association-negotiated")
   \o F(~a.aborted /\ \E i \in 1..Len(a.requests) : ~a.requests[i].answered, "every-request-of-an-undisturbed-association-is-answered")
+  \* P-DATA-TF lengths seen on THIS association's connection against the maxima announced on it (0 = no limit)
+  \o F(\E i \in 1..Len(a.pdus.fromServer) : a.pdus.maxClient # 0 /\ a.pdus.fromServer[i] > a.pdus.maxClient, "pdata-within-the-maximum-this-association-negotiated")
+  \o F(\E i \in 1..Len(a.pdus.fromClient) : a.pdus.maxServer # 0 /\ a.pdus.fromClient[i] > a.pdus.maxServer, "pdata-within-the-maximum-this-association-negotiated")
+  \* further operations on the association (C-FIND with large responses, C-MOVE progress): what went wrong, if anything
+  \o F(~a.aborted /\ a.extras # <<>>, "other-operations-of-this-association-are-answered-on-it-with-its-own-data")
 (* g = [sent: Seq([client, inst]) by associations that did not abort, allSent, seen: Seq([client, inst]), threads: Seq(Seq(mid))] *)
 GlobalClauses(g) ==
      F(~(Range(g.sent) \subseteq Range(g.seen)), "everything-sent-by-an-undisturbed-client-was-seen-by-the-server")
